@@ -127,6 +127,8 @@ impl CodeGenerator {
         if push_state.configuration.min_random_float < push_state.configuration.max_random_float
             && push_state.configuration.min_random_float.is_finite()
             && push_state.configuration.max_random_float.is_finite()
+            && (push_state.configuration.max_random_float - push_state.configuration.min_random_float)
+                .is_finite()
         {
             Some(rng.gen_range(
                 push_state.configuration.min_random_float
